@@ -11,6 +11,7 @@ bits …`): `scaleAndRound` on `math/bits` double words.  The only size assumpti
 sum of the weights does not wrap, i.e. fewer than 2^32 gateways (a 2^32-element `[]Gateway` is > 160 GiB).
 -/
 import Nebula.Lemmas.Routing
+import Nebula.Lemmas.RoutingTie
 
 namespace Nebula.Props.C40
 open Nebula.Routing Nebula.Spec.Routing Nebula.Lemmas.Routing
@@ -22,6 +23,15 @@ theorem scaleAndRound_nearest (w total : Nat) (h0 : 0 < total) (h64 : total < 2 
   refine ⟨_, scaleAndRound_exact w total h0 h64 hw, ?_⟩
   rw [nearest_eq _ _ h0]
   exact nearest_isNearest _ _ h0
+
+/-- Tie to the source: `scaleAndRound` as regenerated from routing/gateway.go (bits.Mul64 / Add64 / Div64 as 128-bit
+`BitVec` arithmetic) returns exactly what the hand model returns, for every total weight below 2^64 and every
+running weight up to the total (where `bits.Div64` cannot panic). An arithmetic edit of the Go function — a
+64-bit shortcut, a dropped carry — changes the regenerated definition and this theorem no longer checks. -/
+theorem scaleAndRound_is_translated (w total : Nat) (h0 : 0 < total) (h64 : total < 2 ^ 64) (hw : w ≤ total) :
+    scaleAndRound w total = some (Gen.routing_scaleAndRound (BitVec.ofNat 64 w) (BitVec.ofNat 64 total)).toNat := by
+  rw [Nebula.Lemmas.RoutingTie.scale_eq w total h0 h64 hw]
+  exact scaleAndRound_exact w total h0 h64 hw
 
 /-- The property's gateway lists: non-empty, weights `1 .. 2^31-1`, and a length a Go slice of gateways
 can have in memory. -/
